@@ -372,6 +372,9 @@ func (m *ConnectMessage) Decode(src []byte) (int, error) {
 	}
 	total += n
 
+	// Only the bytes of this message are decoded
+	src = m.dbuf
+
 	if n, err = m.decodeMessage(src[total:]); err != nil {
 		return total + n, err
 	}
@@ -498,6 +501,10 @@ func (m *ConnectMessage) decodeMessage(src []byte) (int, error) {
 	total += n
 	if err != nil {
 		return total, err
+	}
+
+	if len(src[total:]) < 2 {
+		return total, fmt.Errorf("connect/decodeMessage: Insufficient buffer size. Expecting %d, got %d", 2, len(src[total:]))
 	}
 
 	m.version = src[total]
